@@ -97,6 +97,24 @@ func agentMain() {
 					}
 					msg["path"] = p
 					say(msg)
+				case "x":
+					// x/<store dir>|<scratch dir>: copy <store>/<oid> into the scratch directory (possibly on
+					// another file system) and hand that file over
+					dirs := strings.SplitN(strings.Join(f[1:], "/"), "|", 2)
+					msg := map[string]interface{}{"event": "complete", "oid": req.Oid}
+					if len(dirs) == 2 {
+						b, err := os.ReadFile(filepath.Join(dirs[0], req.Oid))
+						dst := filepath.Join(dirs[1], fmt.Sprintf("%s.%d", req.Oid, os.Getpid()))
+						if err == nil {
+							err = os.WriteFile(dst, b, 0o644)
+						}
+						if err != nil {
+							msg["error"] = map[string]interface{}{"code": 2, "message": err.Error()}
+						} else {
+							msg["path"] = dst
+						}
+					}
+					say(msg)
 				case "o":
 					say(map[string]interface{}{"event": "surprise", "oid": oid})
 				case "u":
@@ -106,7 +124,9 @@ func agentMain() {
 					return
 				}
 			}
-			script = "e" // one request per process
+			if os.Getenv("VERIF_AGENT_REPEAT") == "" {
+				script = "e" // one request per process
+			}
 		}
 	}
 }
